@@ -397,6 +397,7 @@ def rule_runs_not_chunks(ctx):
     r = ctx.rule("runs-not-chunks", "newlines_cleanup_dup() compares a newline chunk with the next *printed* chunk: the chunk tested by the "
                  "second Is(CT_NEWLINE) is reached by a navigation that skips virtual braces (GetNext*Nvb / a loop over IsVBrace())")
     f = db.fn("newlines_cleanup_dup")
+    r.names(f, "pc", "next")
     tests = []
     for b, blk in f.blocks.items():
         t = blk.get("term")
